@@ -697,5 +697,57 @@ _scratch_dir = [None]
 
 
 def replay(ctx, rep):
-    print('replay of %r: re-run ./check C06; case: %r' % (rep.get('mode'), rep))
-    ctx.violations.append('replayed')
+    """Re-execute one reported case: re-render it with the real Pony code and have TLC read it again (E2 modes), or
+    re-run it on SQLite (E1 modes)."""
+    mode = rep.get('mode')
+    _scratch_dir[0] = ctx.scratch.dir
+    empty = {'lits': [], 'flats': [], 'refs': [], 'likes': [], 'likep': 0, 'likes_len': 3, 'typed': []}
+    if mode == 'literal':
+        dbs = {prov: mockdb.make(prov, define) for prov in PROVIDERS}
+        s = rep['s']
+        lits, meta = literal_cases(dbs, [s] if rep['kind'] != 'ident' else [], [s] if rep['kind'] == 'ident' else [])
+        keep = [i for i, m in enumerate(meta) if m[2] == rep['d'] and m[3] == rep['style'] and m[0] == rep['kind']]
+        verdict, _ = tlc.evaluate('LiteralJudge', ctx.scratch, inputs=dict(empty, lits=[lits[i] for i in keep]))
+        bad = {b['id']: b for b in verdict['lits']['bad']}
+        for n, i in enumerate(keep):
+            b = bad.get(n + 1)
+            print('%s renders %r as %s (paramstyle %s); %s reads %s' % (meta[i][1], s, meta[i][5], rep['style'], rep['d'],
+                  show_tokens(b['reads']) if b else 'exactly that value'))
+        if bad:
+            ctx.violations.append('replayed')
+    elif mode == 'shape':
+        tables, _ = tlc.evaluate('LiteralTables', ctx.scratch, inputs={'lexlen': 1, 'likep': 0, 'likes': 0, 'fmtlen': 0, 'n': 0, 'idn': 1, 'n3': 'none'})
+        keys = {k['key']: k for k in tables['keys']}
+        table = dec(tables['table'])
+        provider = mockdb.make(rep['prov'], define).provider
+        benign = [dict(it, s=['a']) if it['k'] == 'val' else it for it in rep['shape']]
+        rsql, rargs = render_shape(provider, 'qmark', benign, keys, table)
+        sql, args = render_shape(provider, rep['style'], rep['shape'], keys, table)
+        flat = {'d': mockdb.DIALECTS[rep['prov']], 'style': rep['style'], 'shape': rep['shape'], 'text': enc(sql), 'args': ser_args(args), 'ref': 1}
+        verdict, _ = tlc.evaluate('LiteralJudge', ctx.scratch, inputs=dict(empty, flats=[flat], refs=[{'text': enc(rsql), 'args': ser_args(rargs)}]))
+        print('SELECT %s under %s -> %r with arguments %r' % (shape_str(rep['shape']), rep['style'], sql, args))
+        for b in verdict['flats']['bad']:
+            print('  reads %s, expected %s, skeleton %s' % (show_tokens(b['reads']), show_tokens(b['expected']), 'unchanged' if b['skeleton_same'] else 'CHANGED'))
+            ctx.violations.append('replayed')
+    elif mode == 'like':
+        db = mockdb.make(rep['prov'], define)
+        ast, sql, args = mockdb.translate(db, lambda: like_query(db, rep['op'], rep['p'], rep['const']))
+        print('%s with %s %r on %s -> %r %r (judged by ./check C06 against LikeMatch)' % (
+            OPS[rep['op']] % 'p', 'constant' if rep['const'] else 'parameter', rep['p'], rep['prov'], sql, args))
+        ctx.violations.append('replayed')
+    elif mode in ('echo', 'like-exec', 'rawsql-exec'):
+        strs = [rep.get('p', ''), 'a', "a'", 'a%', 'a_', 'a!', 'a\\']
+        db = sqlite_db(strs)
+        with db_session:
+            if mode == 'echo':
+                print('select(%s for x in One) ->' % rep['s'], select('%s for x in One' % (rep['s'] if rep['s'][:1] in 'dtb0123456789-' and not rep['s'].isalpha() else repr(rep['s'])),
+                      {'One': db.One, 'date': datetime.date, 'datetime': datetime.datetime, 'timedelta': datetime.timedelta})[:])
+            elif mode == 'like-exec':
+                print('stored %r; %s with %r ->' % (strs, OPS[rep['op']] % 'p', rep['p']), like_query(db, rep['op'], rep['p'], rep['const'])[:])
+        ctx.violations.append('replayed')
+    elif mode == 'ident-exec':
+        print('entity with table/column %r -> %r' % (rep['name'], ident_roundtrip(rep['name'])))
+        ctx.violations.append('replayed')
+    else:
+        print('case: %r (re-run ./check C06 to reproduce)' % (rep,))
+        ctx.violations.append('replayed')
